@@ -103,7 +103,7 @@ impl Prop for C09 {
             // one verified run over more than 2^16 blocks (whatever a run drops or caches on the way, the link
             // check of every block still finds its predecessor's record)
             let coin = "litecoin";
-            let mut scn = new_scenario("C09", "consistent-long-run", coin);
+            let mut scn = new_scenario("C09", "consistent", coin);
             let n = (1usize << 16) + rng.usize(300, 1200);
             scn.chain = marker_chain(0, n, rng);
             if let Some(g) = genesis_block(coin) {
